@@ -705,12 +705,16 @@ func checkEmit(prop, tier string, seed int, updateLedger bool) int {
 	e.cfg.Modular = false
 	e.cfg.AllowRecursion = true
 	e.cfg.MaxDepth = 40
+	e.cfg.MaxSteps = 100000 // largest cell on the unchanged tree needs < 10 000 basic blocks
 	var runs []emitRun
 	langs := map[string]bool{}
 	for _, en := range emitEntries() {
 		for _, c := range emitCells() {
 			if en.Dir == "dispatch" && c.Kind != "match" {
 				continue
+			}
+			if c.Kind == "order" && (en.Dir == "dispatch" || en.Lang == "rust") {
+				continue // Rust's entries are per field; the order of its steps is decided by the caller loop
 			}
 			// only the cells that can carry an obligation of this property
 			switch prop {
